@@ -206,6 +206,17 @@ def gen(ctx):
         for sz in reversed(sizes):
             top = G.Layout(rnd.choice(["strided", "mortonF"]) if sz <= 8 else "strided", "u64", [sz], top)
         items.append({"stack": top, "origin": "tower-nd_size"})
+    # the shape for which the library accepts a NAMED storage object in a pack (interpolator over row-major over array):
+    # always present, always rebuilt through the plain (non-nested) path, see extra_cpp
+    for which, sk, sizes, at, M, aff in (("nn", "f32", [4, 3], "f32", 2, True), ("linear", "f64", [3, 2, 2], "f64", 3, False),
+                                         ("linear", "f32", [5], "f32", 1, True)):
+        arr = G.Array(at, M)
+        arr.setup(rnd, G.prod(sizes))
+        top = G.Interp(which, sk, G.Layout("strided", "u64", sizes, arr))
+        if aff:
+            N = len(sizes)
+            top = G.Affine([[Fr(int(i == j)) for j in range(N)] + [Fr(rnd.choice([0, 1, 2]), 4)] for i in range(N)], top)
+        items.append({"stack": top, "origin": "named-storage", "named": True})
     nrand = 36 if ctx.quick else 400
     guard = 0
     while sum(1 for it in items if it["origin"] == "random") < nrand and guard < 10 * nrand:
@@ -271,7 +282,7 @@ def evaluate(ctx, items, cfgs):
     corr = Corr()
     for ob in OBLS:
         corr.add_obl(ob)
-    tu_items = [(k, it["stack"], extra_cpp(it["stack"], nested=(k % 2 == 1))) for k, it in enumerate(items)]
+    tu_items = [(k, it["stack"], extra_cpp(it["stack"], nested=(k % 2 == 1 and not it.get("named")))) for k, it in enumerate(items)]
     per_tu = max(1, -(-len(items) // C.NCPU)) if len(items) <= 6 * C.NCPU else 6
     exe, failures = G.build_tus(ctx, tu_items, cfgs, per_tu, "c17", ops=("setup", "at", "chain", "rebuild", "packfor", "cmp"))
     for idxs, cfg, err, src in failures:
